@@ -608,9 +608,74 @@ def see_saw_task(shape, who):
     return t
 
 
+class OdometerCrossHair(Task):
+    """update_odometer (list form) is the mixed-radix successor: CrossHair (symbolic execution of the real function + z3)"""
+    engine = "E3-crosshair"
+    weight = 500
+
+    def __init__(self, timeout):
+        super().__init__("update_odometer.is_mixed_radix_successor_crosshair", {"contract_file": "contracts/c07_update_odometer.py",
+                                                                               "bounds": "length 2 (radices 1..4) and length 3 (radices 1..3), all digit values", "per_condition_timeout_s": timeout})
+        self.timeout = timeout
+        self.wall_cap_s = 5 * timeout + 120
+
+    def _run(self, rec, seed):
+        import os
+        import subprocess
+        import sys as _sys
+        from props.c18 import counterexample_args, parse_crosshair
+        from props.runner import VERIF
+        from toqito.helper import update_odometer
+        path = os.path.join(VERIF, "contracts", "c07_update_odometer.py")
+        py = os.path.join(VERIF, ".venv", "bin", "python")
+        if not os.path.exists(py):
+            py = _sys.executable
+        t0 = time.time()
+        pr = subprocess.run([py, "-m", "crosshair", "check", "--report_all", "--per_condition_timeout", str(self.timeout), path],
+                            capture_output=True, text=True, cwd=VERIF, timeout=self.wall_cap_s)
+        res = parse_crosshair(pr.stdout + "\n" + pr.stderr, path)
+        rec["solver_s"] = round(time.time() - t0, 2)
+        rec["queries"] = len(res)
+        rec["crosshair"] = {k: f"{v[0]}: {v[1][:140]}" for k, v in res.items()}
+        rec["reachable"] = res.get("reachability_twin", ("", ""))[0] == "counterexample"
+        rec["neg_control"] = res.get("negative_control", ("", ""))[0] == "counterexample"
+        mains = ["successor_len2", "successor_len3"]
+        for nm in mains:
+            kind, msg = res.get(nm, ("missing", ""))
+            if kind == "counterexample":
+                xs = counterexample_args(msg)
+                rec["disagreements_checked"] = 1
+                if xs:
+                    k = len(xs) // 2
+                    ind, lim = list(xs[:k]), list(xs[k:])
+                    got = list(update_odometer(list(ind), list(lim)))
+                    val = lambda v: sum(d * prod(lim[i + 1:]) for i, d in enumerate(v))   # noqa: E731
+                    if val(got) != (val(ind) + 1) % prod(lim):
+                        rec["status"] = "violation"
+                        rec["violation"] = {"source": "CrossHair counterexample, replayed", "inputs": {"ind": ind, "lim": lim}, "actual": got,
+                                            "expected": "mixed-radix successor"}
+                        return
+                rec["notes"].append(f"{nm}: counterexample did not reproduce / not parseable: {msg[:160]}")
+                return
+            if kind != "confirmed":
+                rec["notes"].append(f"{nm}: {kind} {msg[:160]}")
+                return
+        if rec["reachable"] and rec["neg_control"]:
+            rec["status"] = "discharged"
+        else:
+            rec["notes"].append("reachability twin / negative control not refuted")
+
+    def replay(self, rp):
+        from toqito.helper import update_odometer
+        ind, lim = rp["violation"]["inputs"]["ind"], rp["violation"]["inputs"]["lim"]
+        got = list(update_odometer(list(ind), list(lim)))
+        val = lambda v: sum(d * prod(lim[i + 1:]) for i, d in enumerate(v))   # noqa: E731
+        return val(got) == (val(ind) + 1) % prod(lim)
+
+
 def obligations(tier):
     T = tier == "thorough"
-    obs = []
+    obs = [OdometerCrossHair(120 if T else 40)]
     # the enumerated side's strategies are compared with Python's max: 2^(n-1) feasible record patterns => n <= 9
     for A, B in itertools.product([2, 3] + ([4] if T else []), [2, 3] + ([4] if T else [])):
         for X, Y in itertools.product([1, 2, 3], [1, 2, 3]):
